@@ -12,7 +12,9 @@ FOLLOW = [('none', ''), ('semicolon', ';'), ('group by', 'group by a'), ('order 
           ('limit', 'limit 1'), ('union', 'union select 1'), ('union all', 'union all select 1'),
           ('except', 'except select 1'), ('having', 'having x > 1'), ('returning', 'returning id'),
           ('into', "into outfile 'x'"), ('group+having+order', 'group by a having x > 1 order by a'),
-          ('order+limit', 'order by a limit 1'), ('GROUP  BY', 'GROUP  BY a'), ('Order\nBy', 'Order\nBy a')]
+          ('order+limit', 'order by a limit 1'),
+          ('union+where', 'union select b from u where e = 3'), ('except+where+order', 'except select b from u where e in (1, 2) order by 1'),
+          ('union all+where', 'union all select 2 where g'), ('GROUP  BY', 'GROUP  BY a'), ('Order\nBy', 'Order\nBy a')]
 NEST = [('top', '{q}'), ('from-subquery', 'select * from ({q}) s'), ('in-subquery', 'select 1 from u where id in ({q})'),
         ('cte', 'with w as ({q}) select 1'), ('from-subquery-as-then-order', 'select * from ({q}) as s order by 1')]
 HEADS = [('select', 'select a from t'), ('update', 'update t set a = 1'), ('delete', 'delete from t'),
@@ -30,17 +32,22 @@ def where_cases():
         if nn != 'top' and hn in ('update', 'delete'):
             continue
         wh = 'where' + w + cond
+        exp2 = None
         if follow == ';':
             q = head + w + wh + follow
             exp = wh + follow
         elif follow:
             q = head + w + wh + w + follow
             exp = wh + w
+            if 'where' in follow:
+                second = follow[follow.index('where'):]
+                cut = second.find(' order by')
+                exp2 = second if cut < 0 else second[:cut + 1]
         else:
             q = head + w + wh
             exp = wh
         text = nest.format(q=q)
-        yield {'sub': 'where', 'text': text, 'expect': exp, 'cube': f'follow={fn}|nest={nn}|head={hn}'}
+        yield {'sub': 'where', 'text': text, 'expect': exp, 'expect2': exp2, 'cube': f'follow={fn}|nest={nn}|head={hn}'}
 
 
 ITEMS = ['a', 't.a', 'a as x', 'a x', '1', "'s'", 'f(a)', 'f(a, b) as y', 'a + 1', 'case when a then 1 end',
@@ -85,11 +92,16 @@ def call_cases(tier):
         pool = ARGS if n < 3 else ARGS[:8]
         for combo in itertools.product(pool, repeat=n):
             for sep in (', ', ','):
-                for ctx in ('select {F} from t', 'select 1 from t where {F} > 1', 'select x, {F} as y from t'):
+                for ctx in ('select {F} from t', 'select 1 from t where {F} > 1', 'select x, {F} as y from t',
+                            'select {F} over (partition by b) from t', 'select {F} over w as y from t',
+                            'select {F} over (order by a, b) z, c from t'):
                     call = 'f(' + sep.join(combo) + ')'
                     kinds = sorted({_argkind(a) for a in combo})
-                    yield {'sub': 'call', 'text': ctx.format(F=call), 'call': call, 'expect': list(combo),
-                           'cube': f'n={n}|kinds={",".join(kinds) or "-"}'}
+                    node = call
+                    if ' over ' in ctx:
+                        node = call + ctx[ctx.index(' over '):].split(' as ')[0].split(' z,')[0].split(' from')[0]
+                    yield {'sub': 'call', 'text': ctx.format(F=call), 'call': node, 'expect': list(combo),
+                           'cube': f'n={n}|kinds={",".join(kinds) or "-"}|over={"yes" if " over " in ctx else "no"}'}
                 if n < 2:
                     break
     yield {'sub': 'call', 'text': 'select count(*) from t', 'call': 'count(*)', 'expect': ['*'], 'cube': 'n=1|kinds=star'}
@@ -206,6 +218,8 @@ def check(sqlparse, case):
             texts = [str(w) for w in ws]
             if case['expect'] not in texts:
                 return ('where-extent', 'extent', f'Where nodes {texts!r}, expected {case["expect"]!r}')
+            if case.get('expect2') and case['expect2'] not in texts:
+                return ('where-extent', 'second-where', f'Where nodes {texts!r}, expected also {case["expect2"]!r}')
             from sqlparse import lexer
             nkw = sum(1 for tt, v in lexer.tokenize(text) if oracles.tname(tt) == 'Keyword' and v.upper() == 'WHERE')
             if len(ws) != nkw:
